@@ -15,8 +15,9 @@ RULE = ('(i) round trip rdkit_to_networkx(networkx_to_rdkit(G)) on generator mol
         '(explicit H, node iteration order != key order) and on shuffled / sparsely keyed copies, with and without an RDKit '
         'conformer: isomorphic on element, formal charge, bond order and hydrogen count (H neighbours + hcount), and with a '
         'conformer every node carries a finite 3D position. (ii) embed_3d_via_rdkit(G) on resolver outputs and shuffled '
-        'copies: every node has a finite position and every bond of G has a length within [0.70, 1.25] x (sum of covalent '
-        'radii). (iii) forward_map_molecule on resolver outputs with annotated / random positive weights and synthetic '
+        'copies, and embedd_cg_molecule_via_rdkit (one call) on single molecules and on systems of 2-3 unconnected molecules '
+        'with atoms shared between fragments: every node has a finite position and every bond of G has a length within '
+        '[0.70, 1.25] x (sum of covalent radii). (iii) forward_map_molecule on resolver outputs with annotated / random positive weights and synthetic '
         'positions: bead = sum(w x)/sum(w) over exactly the nodes of the bead\'s graph, and translating all atoms by t '
         'moves every bead by t. Inputs are restricted to molecules on which RDKit\'s aromaticity perception agrees with the '
         'generator\'s and that RDKit sanitises; embedding failures are counted, not judged. distinct = (sub-check, feature '
@@ -36,6 +37,11 @@ def cases(seed, tier, shard, nshards):
     rng = random.Random(f'{seed}:C18:{tier}:{shard}')
     plan = ['round'] * (cfg['round'] // nshards) + ['embed'] * (cfg['embed'] // nshards) + ['fmap'] * (cfg['fmap'] // nshards)
     for what in plan:
+        if what == 'embed' and rng.random() < 0.3:
+            c = system_case(rng)
+            if c is not None:
+                yield c
+                continue
         while True:
             c = MC.random_cut_case(rng, rng.choice([3, 6, 10]) if what == 'embed' else rng.choice([3, 6, 10, 16]), ctor='string',
                                    mol_kw=dict(charged=(what != 'embed'), lowest_valence=(what == 'embed')))
@@ -46,6 +52,32 @@ def cases(seed, tier, shard, nshards):
                  conformer=rng.random() < 0.4)
         c['features'] = sorted(set(c['features']) | {what, c['variant']} | ({'with_conformer'} if c['conformer'] and what == 'round' else set()))
         yield c
+
+
+def system_case(rng):
+    """a system of 2-3 unconnected molecules in ONE string (joined by '.' in the base graph), each a cut molecule or a
+    molecule with atoms shared between fragments ([!]); embedded and forward mapped in one call"""
+    import re
+    parts = []
+    for k in range(rng.choice([2, 2, 3])):
+        for _ in range(40):
+            if rng.random() < 0.6:
+                c = MC.random_shared_case(rng, rng.choice([4, 6, 8]), ctor='string', mol_kw=dict(charged=False, lowest_valence=True))
+            else:
+                c = MC.random_cut_case(rng, rng.choice([3, 6]), ctor='string', mol_kw=dict(charged=False, lowest_valence=True))
+            if c is not None and unstrained(c) and rdkit_agrees(c):
+                break
+        else:
+            return None
+        ren = lambda t, k=k: re.sub(r'#F(\d+)', lambda m: '#M%dF%s' % (k, m.group(1)), t)
+        parts.append(dict(base=ren(c['base_string']), frag=ren(c['frag_string']), kind=c['kind'], nheavy=c['nheavy'], features=c['features']))
+    base = '{' + '.'.join(p['base'][1:-1] for p in parts) + '}'
+    frag = '{' + ','.join(p['frag'][1:-1] for p in parts) + '}'
+    feats = {'embed', 'resolved', 'system_of_molecules'} | {'system_with_shared_atoms' for p in parts if p['kind'] == 'shared'}
+    if any(p['kind'] == 'shared' for p in parts[1:]):
+        feats.add('shared_atoms_in_a_later_molecule')
+    return dict(kind='embed', system=True, base_string=base, frag_string=frag, ctor='string', variant='resolved', sub_seed=2 * rng.randrange(10 ** 5),
+                conformer=False, nheavy=sum(p['nheavy'] for p in parts), features=sorted(feats))
 
 
 def unstrained(case):
@@ -171,7 +203,7 @@ def run(case):
     txt = MC.case_text(case)
     kind = case['kind']
     cls = (kind, tuple(case['features']), case['nheavy'])
-    if kind in ('round', 'embed') and not rdkit_agrees(case):
+    if kind in ('round', 'embed') and not case.get('system') and not rdkit_agrees(case):
         return {'violations': [], 'rejected': {'rdkit_model_disagrees_or_rejects': 1}, 'nontrivial': False, 'cls': ('skipped',), 'sample': txt}
     res = MC.resolve_case(case)
     if res['error']:
